@@ -42,37 +42,48 @@ CHECKS["C01"] = dict(
     note=TB + "; harness/narrow.py parts() (collider spec -> shape expression) is trusted; witnesses are untrusted",
 )
 
-INTERIM = " (Props file being completed in this session: the listed theorems are those already exported there; further proved lemmas live in Proofs/*.v)"
 CHECKS["C03"] = dict(
     category="proof",
-    text=("Theorems over the reals about the Gallina transliteration Model/Support.v of every support mapping (is_support: membership and "
-          "extremality, all directions incl. zero components) exported in Props/C03.v; mesh hill climbing under the explicit hypothesis "
-          "LocalMaxGlobal on the input mesh (partial). Tie to /repo: the binary64 instance of the same model is compared with "
-          "collider.support_function / first_vertex / center on generated colliders (10 kinds, Margin, lattice and sign-boundary directions, "
-          "mesh query histories vs fresh objects) at 1e-9 L, and an exact rational oracle judges the implementation's answers." + INTERIM),
+    text=("Proved in Coq for ALL inputs about the real-arithmetic instance of the hand-written model Model/Support.v of geometry.py / "
+          "colliders.py / mesh.py (Props/C03.v, 41 theorems): for sphere, cylinder, capsule, ellipsoid, cone, disk, ellipse, box (np.sign form "
+          "and 8-vertex Box collider), vertex hulls (first-maximal-index argmax) and Margin the returned point is a point of the closed set AND "
+          "maximises x.d over it exactly, for every direction (d = 0 and zero components included) and every pose matrix (only the disk needs a "
+          "unit normal); first_vertex() and center() of all ten kinds lie in the set. MeshGraph: the hill climb stops only at a vertex without a "
+          "better neighbour and terminates on a closed adjacency; global maximality and independence of the cached start vertex are proved only "
+          "under the explicit hypothesis LocalMaxGlobal on the input mesh (C03_mesh_*_partial; missing: that edge graphs of convex polytopes "
+          "satisfy it). Per generated input (not universal): the implementation's answers are judged by an exact rational oracle (membership and "
+          "s.d within 1e-9 L of the exact maximum) and compared with the binary64 run of the same model evaluated inside coqc (support value, "
+          "full point where unique, vertex index, shortcut table, first_vertex, center; mesh query histories vs fresh objects)."),
     design_ref="DESIGN.md section 5, C03",
-    technique="Coq proof over R about a hand-written model + model/implementation correspondence by vm_compute (PrimFloat) + exact rational oracle",
+    technique="Coq proof over R about a hand-written Gallina model + model/implementation correspondence by vm_compute (PrimFloat) + exact rational oracle",
     note=TB + "; the per-input property oracle is an exact Python Fraction oracle (not Coq-extracted); IEEE rounding is measured, not modelled",
 )
 CHECKS["C04"] = dict(
     category="proof",
-    text=("Theorems over the reals about Model/Aabb.v (transliteration of containment.*_aabb and the aabb() wrappers): enclosure and per-axis "
-          "tightness for orthonormal poses, and the corollary that intersecting sets have overlapping AABBs (Props/C04.v). ellipsoid_aabb for "
-          "general rotations and RigidBody.aabb() in the world frame are refuted in Coq and recorded as known findings F9 / RB-AABB. Tie to "
-          "/repo: binary64 instance of the model vs collider.aabb()/containment functions on generated colliders (six bounds at 1e-9 L) and "
-          "an exact rational oracle (support values along +-e_k)." + INTERIM),
+    text=("Proved in Coq for ALL inputs about the real-arithmetic model Model/Aabb.v of containment.py / the aabb() methods (Props/C04.v, 21 "
+          "theorems): for sphere, box, cylinder, capsule, cone, disk, ellipse, vertex hulls, MeshGraph and Margin the returned box encloses the "
+          "set and each of the six bounds is attained by a point of the set (orthonormal pose / unit normal, sizes >= 0); bounds equal the "
+          "coordinates of support points along +-e_k; two sets that meet have overlapping boxes (broad-phase completeness). Ellipsoid: exact for "
+          "the 48 signed permutation matrices; for general rotations the code's value never exceeds the true half extent and "
+          "C04_ellipsoid_refuted exhibits a rotation where the box does not enclose (known finding F9). RigidBody.aabb(): exact for the stored "
+          "body-frame vertices, C04_rigid_body_world_refuted (known finding RB-AABB). Per generated input: exact rational oracle on the six "
+          "bounds (1e-9 L) and comparison with the binary64 model run inside coqc."),
     design_ref="DESIGN.md section 5, C04",
-    technique="Coq proof over R about a hand-written model + model/implementation correspondence by vm_compute (PrimFloat) + exact rational oracle",
+    technique="Coq proof over R about a hand-written Gallina model + model/implementation correspondence by vm_compute (PrimFloat) + exact rational oracle",
     note=TB + "; the per-input property oracle is an exact Python Fraction oracle; RigidBody.aabb() modelled as merge of per-tetrahedron boxes (C05 gives root box = merge)",
 )
 CHECKS["C13"] = dict(
     category="proof",
-    text=("Theorems over the reals about Model/Contain.v (the eight points_in_* predicates per point): predicate = true <-> point in the closed "
-          "shape, for orthonormal poses (Props/C13.v). Tie to /repo: binary64 instance of the model vs the implementation on generated shapes "
-          "and point batches (features, boundary pushes at +-k 1e-9 L), booleans compared wherever an exact rational oracle certifies the "
-          "1e-9 L margin; cross-agreement with point_to_<shape> distances and support functions is checked per input." + INTERIM),
+    text=("Proved in Coq for ALL inputs about the real-arithmetic model Model/Contain.v of containment_test.py (Props/C13.v, 21 theorems): for "
+          "orthonormal poses, predicate = true <-> point of the closed set for sphere, capsule, ellipsoid, cylinder, cone, box; the disk predicate "
+          "accepts exactly the slab of half width 10 eps around the disk; points_in_convex_mesh is exactly the intersection of the face "
+          "half-spaces and accepts every point of the hull when faces are outward (PARTIAL: the converse needs the H=V representation theorem "
+          "for the input triangulation). Cross-agreement with the models of point_to_box / point_to_cylinder / point_to_disk (distance 0 <-> "
+          "contained) and with the support mappings of C03 (no contained point projects beyond the support value). Per generated input: exact "
+          "rational classification in / out / band at 1e-9 L of the implementation's booleans, batch = single = reversed order, cross-checks "
+          "against the implementation's own point_to_<shape> and support_function, comparison with the binary64 model run inside coqc."),
     design_ref="DESIGN.md section 5, C13",
-    technique="Coq proof over R about a hand-written model + model/implementation correspondence by vm_compute (PrimFloat) + exact rational oracle",
+    technique="Coq proof over R about a hand-written Gallina model + model/implementation correspondence by vm_compute (PrimFloat) + exact rational oracle",
     note=TB + "; convex meshes: faces from scipy ConvexHull verified exactly as supporting half-spaces; flat disk: only the False side is judged",
 )
 CHECKS["C14"] = dict(
@@ -98,6 +109,86 @@ CHECKS["C17"] = dict(
     design_ref="DESIGN.md section 5, C17",
     technique="Coq-proven mesh certificate checker + tables regenerated from source + bit-exact model correspondence + exact rational oracle",
     note=TB + "; harness/tables_c17.py (ast reader) and harness/c17_oracle.py are trusted; scipy ConvexHull facets are an untrusted witness verified exactly",
+)
+
+CHECKS["C02"] = dict(
+    category="translation_validation",
+    text=("Proved in Coq for all inputs (Props/C02.v): every collider shape expression denotes a convex set; para_cert (8 exact corners of a "
+          "parallelepiped around p certified as members) and Deep.deep_cert (last Minkowski summand a ball) each imply that the ball of radius "
+          "delta around p lies in the collider; overlap_cert = true => p is >= delta inside both colliders; gap_cert = true => all point pairs "
+          "are >= delta apart; no pair carries both certificates; the separating-axis exit of the Jolt boolean loop model is sound. Judged per "
+          "generated input only: for each pair whose certificate evaluates to true inside coqc (exact rationals of the constructor floats, "
+          "untrusted witnesses), gjk_intersection_jolt, gjk_intersection_libccd, mpr_intersection, gjk_nesterov_accelerated_intersection (and the "
+          "primitives variant on its accepted kinds) must answer True (overlap class) / False (gap class) and agree with gjk_distance_jolt. "
+          "Tie to the code beyond the answers: Gallina models of gjk_intersection_libccd, mpr_intersection and the Jolt loop replay the support "
+          "traces recorded from the implementation (every search direction, iteration count and answer must agree). The algorithms' accuracy in "
+          "floating point is not proved."),
+    design_ref="DESIGN.md section 5, C02; section 2.3",
+    technique="Coq-proven ground-truth certificates (ball-in-collider by convexity, separating direction) evaluated by vm_compute + trace-replay correspondence of Gallina loop models",
+    note=TB + "; harness/narrow.py parts()/sh_expr (collider -> shape expression) is trusted; witnesses are untrusted",
+)
+CHECKS["C06"] = dict(
+    category="proof",
+    text=("Machine-checked (Props/C06.v, closed under the global context) about the Gallina model Model/Bvh.v of BoundingVolumeHierarchy / "
+          "self_collision.detect / detect_any / urdf_utils.self_collision_whitelists on top of the proven AABB-tree model, for ALL inputs and "
+          "histories: (1) poses_current: after any sequence of add_collider, transform changes, whitelist updates and update_collider_poses ending "
+          "with update_collider_poses, the tree holds exactly one leaf per registered collider with its current aabb and payload and every "
+          "collider is at the transform manager's current transform (refuted with a witness when one object is registered under two frames); "
+          "(2) the three broad-phase queries return exactly the entries / ordered pairs whose current AABBs overlap, without duplicates, minus "
+          "whitelisted frames; (3) detect_spec / detect_spec_symmetric / detect_any_spec exactly as the property words them, completeness under "
+          "the named hypothesis narrow_implies_aabb_overlap (C04's corollary); (4) the generated whitelists = own link + last parent + last "
+          "child. Judged per generated input: that the model IS the code - the real classes run on generated URDF chains/trees/stars with "
+          "set_joint histories and every answer IN ORDER is compared with the model evaluated by vm_compute, plus an independent all-pairs "
+          "brute force oracle. Collider kernels, IEEE rounding and pytransform3d are parameters of the model."),
+    design_ref="DESIGN.md section 5, C06",
+    technique="Coq proof (no axioms) of BVH/self-collision exactness over the proven AABB-tree model + order-exact model/implementation correspondence + brute-force oracle",
+    note=TB + "; pytransform3d (URDF parser, TransformManager) as source of poses; Python dict order = insertion order",
+)
+CHECKS["C12"] = dict(
+    category="proof",
+    text=("Theorems over the reals (Props/C12.v): dist_ge, dist_le, intersect, is_support and the distance given by its two defining inequalities "
+          "are invariant under one rigid motion applied to both sets, symmetric in the arguments and scale with a uniform scaling; hence any "
+          "function validated to return the distance within tau on a scene and tau' on its moved / swapped / scaled copy returns values that "
+          "differ by at most tau + tau' (the formal reason the iterative solvers, validated per input by C01, C07-C09, inherit C12). Pose algebra "
+          "of utils.py: round-trip, involution, composition laws. For the modelled closed-form layer the model's output is equivariant as an "
+          "equality (support functions of all kinds, vertex hull argmax, Margin, mesh hill climbing, containment predicates, distance leaves); "
+          "AABBs are not invariant (stated). Per generated input (not a theorem): every scene (all collider kinds through all GJK flavours, MPR, "
+          "EPA; the 34 distance functions) is run in four forms - original, swapped, moved, scaled - and distances, depths, booleans outside the "
+          "band, points, directions and mtv are compared with the tolerance of the specifying property; where the optimum is not unique the "
+          "verdict uses consequences that hold for any optimal answer (membership by the Coq-proven in_shape_tol)."),
+    design_ref="DESIGN.md section 5, C12",
+    technique="Coq proofs of spec-level invariance + model equivariance; metamorphic differential of paired implementation runs with Coq-proven membership checker",
+    note=TB + "; harness transform_spec / primlib.rigid build the moved scene in floats; known-finding input classes of C07/C10/C11 are skipped and counted",
+)
+CHECKS["C16"] = dict(
+    category="proof",
+    text=("Proved for all inputs (Coq, over the reals, about the Gallina model Model/HydroWrench.v of accumulate_wrenches / _transform_wrenches): "
+          "the two world-frame forces are exactly opposite for every contact surface and every frame2world (C16_action_reaction) and the further "
+          "wrench-algebra statements exported in Props/C16.v. Judged per generated input (pairs of RigidBody.make_* bodies at arbitrary poses of "
+          "both bodies, common rigid motions, swapped order, repeated and interleaved calls, both broad phases): swap symmetry, equivariance "
+          "under a common motion, reproducibility of repeated calls within 5 % of the force magnitude with unchanged intersection flag; tree and "
+          "brute-force broad phase give identical pair sets. Tie to the code: the binary64 instance of the model's accumulate_wrenches is run in "
+          "coqc on the implementation's own contact surface, express_in on vertex samples, f12 == -f21 bit for bit, every cached property of "
+          "body 1 equals that of a body rebuilt from its current vertices after every call. Known finding F17 (rounding-noise plane normal)."),
+    design_ref="DESIGN.md section 5, C16",
+    technique="Coq proof about a Gallina model of the wrench accumulation + per-run correspondence (PrimFloat model vs implementation) + 5 % symmetry/equivariance measurements",
+    note=TB + "; harness/hydrogen.py generators; Python comparisons for the 5 % verdicts",
+)
+CHECKS["C20"] = dict(
+    category="other",
+    text=("Differential between two executions of one serialised call list - numba JIT as installed vs NUMBA_DISABLE_JIT=1, separate processes - "
+          "over every family of jitted public code (utils, geometry support functions, containment boxes and predicates, AABB helpers, GJK simplex "
+          "kernels, half-plane kernels, the 34 distance functions, collider pairs through all GJK flavours / MPR / EPA, MeshGraph support "
+          "sequences, AABB tree histories incl. empty-tree queries, and cases of the C06 / C14 / C15 / C16 generators): closed forms agree to 1e-9 "
+          "relative, iterative solvers within the tolerance of C01/C07-C09, booleans / index sets / result structure / exception types identical; "
+          "a crash, hang or exception in one mode only is a failure. Static side (every run, fail-closed ast scan): every njit function with the "
+          "module-level globals it captures; none is rebound or mutated; no jit option other than cache=True. Theorems (Props/C20.v): for every "
+          "insertion history the AABB tree model never indexes outside its arrays (the side condition under which checked and unchecked indexing "
+          "coincide), the empty tree is answered without indexing. Equivalence of arbitrary compiled code is out of reach (no numba/LLVM "
+          "semantics). Known finding C20-NORM-UNDERFLOW."),
+    design_ref="DESIGN.md section 5, C20",
+    technique="two-mode differential of a serialised call list + fail-closed ast scan of captured globals/jit options + Coq index-safety theorems",
+    note=TB + "; numpy's and numba's argsort order equal keys differently: order of tree-query pairs is not compared when a 'sort' batch has ties",
 )
 
 NA_DEFAULT = "no check registered yet: machinery under construction in this session (DESIGN.md section 5 has the plan); not claimed"
